@@ -2529,7 +2529,7 @@ def nan_guard(r: R, chk, qual: str, rule="NAN-GUARD"):
             facts = path_facts(ctx, n.id)
             ok = False
             for txt, pol in facts:
-                t = txt.replace(" ", "")
+                t = txt.replace(" ", "").replace(f"float({x})", x)  # isfinite(float(x)) tests x all the same
                 if pol and (t in (f"np.isfinite({x})", f"math.isfinite({x})")):
                     ok = True
                 if not pol and t in (f"np.isnan({x})", f"math.isnan({x})"):
@@ -4318,4 +4318,70 @@ def mult_aware(r: R, chk, quals: List[str], rule="MULT-AWARE", floor: int = 1):
                    detail="" if ok else f"{q}: `{nm}`, handed to `{seg(c, 50)}`, is built without `mult(...)`: a fixed number of copies per interior knot is right only for simple knots — for a knot of multiplicity 2 or more too many copies are taken out, the elevation matrix has too few rows and degree_increase / Derivate of a rational spline with a repeated knot raise",
                    func=q, construct=f"{nm} not counted from the multiplicities")
     chk.floor(rule, "node lists handed to Operations.knot_insert / knot_remove", n, floor)
+    return n
+
+
+# ---------------------------------------------------------------------------------------------------------
+# UFUNC-FLOAT: numpy's float-only functions are given floats
+FLOAT_ONLY = ("np.sqrt", "np.isfinite", "np.isnan", "np.isinf", "np.linalg.norm", "np.exp", "np.log", "np.arccos", "np.hypot")
+
+
+def ufunc_float(r: R, chk, quals: List[str], rule="UFUNC-FLOAT", floor: int = 1):
+    """`np.sqrt`, `np.isfinite`, `np.linalg.norm` ... have no loop for Python objects: for a Fraction (a curve with exact knots and
+    points evaluates to Fractions) they raise TypeError.  Where such a function is applied to a value of the curve (a point, a
+    difference of points, an inner product) or to a parameter, the value is converted first: `float(x)`, or an array built with a
+    float dtype."""
+    from .common import expand_locals
+
+    n = 0
+    for q in quals:
+        fi = r.prog.func(q)
+        fn = fi.node
+        params = {p for p in fi.params if p not in ("self", "cls")}
+        # locals that are already float: float(...), np.array(..., dtype=float...), loop targets over generators / lists of such
+        floaty = set()
+
+        def is_floaty(e):
+            if isinstance(e, ast.Call) and seg(e.func) == "float":
+                return True
+            if isinstance(e, ast.Call) and seg(e.func) in ("np.array", "np.asarray") and any(k.arg == "dtype" and "float" in seg(k.value) for k in e.keywords):
+                return True
+            if isinstance(e, ast.Name) and e.id in floaty:
+                return True
+            return False
+
+        grow = True
+        while grow:
+            grow = False
+            for a in ast.walk(fn):
+                if isinstance(a, ast.Assign) and len(a.targets) == 1 and isinstance(a.targets[0], ast.Name) and a.targets[0].id not in floaty:
+                    v = a.value
+                    if is_floaty(v) or (isinstance(v, (ast.GeneratorExp, ast.ListComp)) and is_floaty(v.elt)):
+                        floaty.add(a.targets[0].id)
+                        grow = True
+                if isinstance(a, (ast.comprehension, ast.For)) and isinstance(a.iter, ast.Name) and a.iter.id in floaty and isinstance(a.target, ast.Name) and a.target.id not in floaty:
+                    floaty.add(a.target.id)
+                    grow = True
+        for c in ast.walk(fn):
+            if not (isinstance(c, ast.Call) and seg(c.func) in FLOAT_ONLY and c.args):
+                continue
+            a0 = c.args[0]
+            ex = expand_locals(fi, a0)
+            from_curve = any((isinstance(x, ast.Call) and isinstance(x.func, ast.Attribute) and x.func.attr in ("eval", "__call__")) or (isinstance(x, ast.Call) and isinstance(x.func, ast.Name) and x.func.id in ("curve", "bezier")) or (isinstance(x, ast.Name) and x.id in params) for x in ast.walk(ex))
+            # comprehension / loop targets that walk evaluated values
+            if not from_curve:
+                names = {x.id for x in ast.walk(a0) if isinstance(x, ast.Name)}
+                for g in ast.walk(fn):
+                    if isinstance(g, (ast.comprehension, ast.For)) and isinstance(g.target, ast.Name) and g.target.id in names:
+                        it = expand_locals(fi, g.iter)
+                        if any(isinstance(x, ast.Call) and isinstance(x.func, ast.Attribute) and x.func.attr in ("eval", "__call__") for x in ast.walk(it)):
+                            from_curve = True
+            if not from_curve:
+                continue
+            n += 1
+            ok = is_floaty(a0)
+            chk.ob(rule, f"{q}: `{seg(c, 40)}` is given a float", ok, loc=f"{fi.module}.py:{c.lineno}",
+                   detail="" if ok else f"{q}: `{seg(c, 50)}` applies a float-only numpy function to a value of the curve / a parameter as it is: for a curve with exact (Fraction) knots and points that value is a Fraction (or an object array of Fractions) and numpy raises TypeError — the operation fails on exact data where it works on the same data given as floats",
+                   func=q, construct=f"float-only numpy function on an unconverted value: {seg(c.func)}")
+    chk.floor(rule, "float-only numpy functions applied to values of a curve", n, floor)
     return n
